@@ -186,6 +186,28 @@ def _run_seeded(name):
         shutil.rmtree(tmp, ignore_errors=True)
 
 
+def _run_stored_twin(name):
+    """A behaviour-preserving refactoring kept under /verif/twins/<prop>-<rK>/patch.diff (same results on a randomised demo, same test outcome):
+    every one of the 20 checks must stay at exit 0 with no stale finding."""
+    d = os.path.join(VERIF, 'twins', name)
+    tmp = tempfile.mkdtemp(prefix='sa_selftest_')
+    try:
+        shutil.copytree(os.path.join(REPO, 'src'), os.path.join(tmp, 'src'), ignore=shutil.ignore_patterns('*.so', '__pycache__', 'build'))
+        subprocess.run(['git', 'init', '-q', '.'], cwd=tmp, stdout=subprocess.DEVNULL, stderr=subprocess.DEVNULL)
+        p = subprocess.run(['git', 'apply', '--unsafe-paths', '-p1', '--directory=.', os.path.join(d, 'patch.diff')], cwd=tmp, stdout=subprocess.PIPE, stderr=subprocess.STDOUT, text=True)
+        if p.returncode != 0:
+            return name, False, 'SETUP: patch does not apply to the current tree: ' + p.stdout[:200]
+        env = dict(os.environ, VERIF_REPO=tmp, VERIF_NO_EVIDENCE='1', VERIF_CACHE=os.path.join(tmp, '.cache'))
+        bad = []
+        for pr_ in ['C%02d' % i for i in range(1, 21)]:
+            q = subprocess.run(['/venv/bin/python', '-m', 'sa.check', pr_], cwd=VERIF, env=env, stdout=subprocess.PIPE, stderr=subprocess.STDOUT, text=True)
+            if q.returncode != 0 or 'STALE-FINDING' in q.stdout:
+                bad.append('%s rc=%s %s' % (pr_, q.returncode, [l.strip()[:160] for l in q.stdout.splitlines() if l.startswith('  ') or 'ERROR' in l or 'STALE' in l][:1]))
+        return name, not bad, '; '.join(bad)
+    finally:
+        shutil.rmtree(tmp, ignore_errors=True)
+
+
 def _run_shift(_=None):
     """Whole-tree twin: two comment lines are prepended to every source file (all line numbers move); every check must stay at exit 0 with the
     same known findings (identity never uses positions)."""
@@ -217,13 +239,16 @@ def _run_shift(_=None):
 def main(argv):
     jobs = 16
     ids = [a for a in argv if not a.startswith('-')]
-    seeded_only = '--seeded' in argv
+    seeded_only = '--seeded' in argv or ('--twins' in argv and '--all' not in argv)
     work = [] if seeded_only else [(m, 'mutant') for m in MUTANTS if not ids or m[0] in ids] + [(t, 'twin') for t in TWINS if not ids or t[0] in ids]
     sdir = os.path.join(VERIF, 'seeded')
-    seeded = sorted(n for n in os.listdir(sdir) if os.path.isdir(os.path.join(sdir, n)) and (not ids or n in ids)) if os.path.isdir(sdir) and (seeded_only or '--all' in argv) else []
+    seeded = sorted(n for n in os.listdir(sdir) if os.path.isdir(os.path.join(sdir, n)) and (not ids or n in ids)) if os.path.isdir(sdir) and ('--seeded' in argv or '--all' in argv) else []
     res = []
     with concurrent.futures.ThreadPoolExecutor(max_workers=jobs) as ex:
         futs = [ex.submit(_run_variant, item, kind) for item, kind in work] + [ex.submit(_run_seeded, n) for n in seeded]
+        tdir = os.path.join(VERIF, 'twins')
+        if os.path.isdir(tdir) and ('--all' in argv or '--twins' in argv):
+            futs += [ex.submit(_run_stored_twin, n) for n in sorted(os.listdir(tdir)) if os.path.isdir(os.path.join(tdir, n)) and (not ids or n in ids)]
         if '--all' in argv or 'TSHIFT' in ids:
             futs.append(ex.submit(_run_shift))
         for fu in futs:
